@@ -30,7 +30,8 @@ pub fn run(comp: u64, case: &Sx) -> Vec<Ev> {
         }
         4 => {
             let s = String::from_utf8(case.bytes()).expect("harness: path text must be UTF-8");
-            ser(&aml::Path::new(&s))
+            // `impl From<&str> for Path` is the same constructor: alternate between the two entry points
+            if s.len() % 2 == 0 { ser(&aml::Path::new(&s)) } else { let p: aml::Path = s.as_str().into(); ser(&p) }
         }
         5 => {
             let s = String::from_utf8(case.bytes()).expect("harness: eisa text must be UTF-8");
